@@ -26,7 +26,7 @@ from vlib.model import *  # noqa
 from vlib.refcodec import Codec, F, f32, f64
 
 LEVEL = "exploration"
-FLOOR = {"quick": 1500, "thorough": 6000}
+FLOOR = {"quick": 1500, "thorough": 1500}
 NUMS = ["int8", "uint8", "int16", "uint16", "int32", "uint32", "int64", "uint64", "size", "float32", "float64", "complexfloat32", "complexfloat64"]
 OPS = [("add", "+"), ("sub", "-"), ("mul", "*"), ("div", "/"), ("pow", "**")]
 CPP_T = {"int8_t": "int8", "uint8_t": "uint8", "int16_t": "int16", "uint16_t": "uint16", "int32_t": "int32", "uint32_t": "uint32", "int64_t": "int64",
@@ -356,11 +356,11 @@ def run(ctx):
         rows_py = json.load(open(op)) if res.get("ok") else None
         return pr, rows_cpp, res, rows_py
 
-    n_rand = 6 if quick else 60
+    n_rand = 6 if quick else 400
     for rn, t1, t2, names in vrecs:
         r = rng("C19v", rn)
         va, vb = operand_values(t1, r, n_rand), operand_values(t2, r, n_rand)
-        pairs = [(a, b) for a in va[:10] for b in vb[:10]] + [(r.choice(va), r.choice(vb)) for _ in range(40 if quick else 400)]
+        pairs = [(a, b) for a in va[:10] for b in vb[:10]] + [(r.choice(va), r.choice(vb)) for _ in range(40 if quick else 1500)]
         # integer division by zero is undefined in C++: keep zero divisors out of records that divide integers
         intdiv = any(op == "/" and result_type.get((t1, t2, "/")) in INT_RANGE for _, op, _ in names)
         if intdiv:
@@ -386,7 +386,7 @@ def run(ctx):
     # structured expressions
     r = rng("C19e")
     items, envs = [], []
-    for k in range(20 if quick else 200):
+    for k in range(20 if quick else 1500):
         ia, ib, ic = r.randint(-1000, 1000), r.randint(-1000, 1000), r.randint(-1000, 1000)
         da, db, dc = [f64(r.choice([r.uniform(-50, 50), float(r.randint(1, 9)), 0.5, 2.25])) for _ in range(3)]
         if db.value == 0 or dc.value == 0:
